@@ -146,6 +146,27 @@ def apply_op(f, op, kind, is_ref):
     raise ValueError('unknown op %r' % (op,))
 
 
+def apply_raw(f, op, ft):
+    """one op of an 'F' history on a plain io / temporary-file object (the reference the theorems refine to)"""
+    name = op[0]
+    if name == 'g' or name == 'l':
+        if hasattr(f, 'getvalue'):
+            v = f.getvalue()
+        else:
+            pos = f.tell()
+            f.seek(0)
+            v = f.read()
+            f.seek(pos)
+        return v if name == 'g' else len(v)
+    if name == 'se':
+        if ft != 'b':
+            return f.seek(len(f.getvalue()) - op[1])
+        return f.seek(-op[1], os.SEEK_END)
+    if name == 'sc' and ft != 'b':
+        return f.seek(f.tell() + op[1])
+    return apply_op(f, op, 'B' if ft == 'b' else 'S', True)
+
+
 def reference(case):
     """run the history on io.BytesIO / io.StringIO(newline=''); returns (in_domain, appending, records)"""
     kind = case['k']
@@ -298,8 +319,13 @@ class C18(Property):
             'temporary-file members) x every op sequence up to length 2 (3 thorough) over read(1..3, 9) / read() / read(0) / '
             'seek(0), plus random ones. Non-trivial = B/S: data was written, a read or iteration returned data after a seek '
             'or query, and the object rolled over or (S) holds a multi-byte character; M: at least 2 members and a sized '
-            'read or a seek(0) after a read. distinct = distinct canonical cases.')
-    ASSUMPTIONS = ['io.BytesIO and tempfile.TemporaryFile are the same abstract file (content + position) for the listed calls',
+            'read or a seek(0) after a read. F (round 3): the plain reference file of the theorems by itself (Lean Spec.run '
+            'for bytesSem / textSem / lfSem) against the real io.BytesIO AND tempfile.TemporaryFile / io.StringIO(newline="") / '
+            'the default io.StringIO(): every op sequence of length 2 (3 after a write) over a 15-17 op alphabet plus random '
+            'histories, overwriting writes and (bytes) seeks, writes and reads past the end included; non-trivial = a '
+            'write or read after a seek. distinct = distinct canonical cases.')
+    ASSUMPTIONS = ['io.BytesIO and tempfile.TemporaryFile are the same abstract file (content + position) for the listed calls '
+                   '(round 3: tested directly on every run, kind F: same history on both objects and on the Lean reference file)',
                    'text is a sequence of Unicode scalar values (no lone surrogates); UTF-8 is modelled as a prefix code with '
                    'Char.utf8Size code units per character, decoded incrementally (whole characters, rest kept)',
                    'the reference for SpooledStringIO is io.StringIO(newline=""): LF, CR and CRLF end a line, untranslated; '
@@ -316,7 +342,8 @@ class C18(Property):
     EXTRA_TRUSTED = ['CPython 3.12 codecs.StreamReader.read/readline/seek/reset and StreamRecoder wrappers, transliterated by '
                      'hand into the model (C18.Reader) and differential-tested through SpooledStringIO']
     CORRESPONDENCE_NAME = ('C18.Driver (SBytes / SStr incl. codecs.StreamReader / MFR models) vs boltons.ioutils '
-                           'SpooledBytesIO / SpooledStringIO / MultiFileReader')
+                           'SpooledBytesIO / SpooledStringIO / MultiFileReader; the reference file Spec.run vs io.BytesIO, '
+                           'tempfile.TemporaryFile, io.StringIO')
 
     # ------------------------------------------------------------------ translator
     def regen(self):
@@ -395,6 +422,8 @@ class C18(Property):
         for c in self.sandwich():
             yield c
         for c in self.readahead():
+            yield c
+        for c in self.file_family(rng, 2000 if self.thorough else 300):
             yield c
 
     @staticmethod
@@ -489,6 +518,76 @@ class C18(Property):
                 for c in reads:
                     for mk in (('io', 'spooled') if len(files) == 2 else ('io',)):
                         yield {'k': 'M', 'text': text, 'mk': mk, 'files': list(files), 'ops': [list(a), ['s'], list(c)]}
+
+    def file_family(self, rng, n_random):
+        """'F' cases: the plain reference file by itself - Lean `Spec.run` (what every refinement theorem has on its
+        right-hand side) against the real io.BytesIO AND tempfile.TemporaryFile (b), io.StringIO(newline='') (t), the
+        default io.StringIO() (d); beyond the statement's domain too: overwriting writes, (b) seeks and writes past the
+        end (zero-filled gap), reads there"""
+        small = {'b': [['w', '610a62'], ['w', 'c3a9'], ['w', '0a'], ['r', 1], ['ra'], ['rl'], ['rL', 1], ['rs'], ['sk', 0],
+                       ['sk', 2], ['sk', 5], ['sc', 1], ['se', 1], ['n'], ['it'], ['g'], ['wl', ['78', '', '0a79']]],
+                 't': [['w', 'a\r\n\xe9'], ['w', '\r'], ['w', '\nb'], ['r', 1], ['ra'], ['rl'], ['rs'], ['sk', 0], ['sk', 2],
+                       ['sc', 0], ['se', 1], ['n'], ['it'], ['g'], ['wl', ['x', '', '\x0cy']]]}
+        small['d'] = small['t']
+        for ft in ('b', 't', 'd'):
+            for d in (2, 3):
+                for seq in itertools.product(small[ft], repeat=d):
+                    if d == 3 and seq[0][0] not in ('w', 'wl'):
+                        continue
+                    case = {'k': 'F', 'ft': ft, 'ops': [list(o) for o in seq] + [['g'], ['t']]}
+                    if self.file_case_ok(case):
+                        yield case
+        for _ in range(n_random):
+            ft = rng.choice('btd')
+            text = ft != 'b'
+            units = S_UNITS + ['\x0c', '\x85'] if text else B_UNITS
+            ref = io.StringIO(newline='') if text else io.BytesIO()
+            ops = []
+            for i in range(rng.randint(2, 12)):
+                n = len(ref.getvalue())
+                o = rng.choice(['w', 'w', 'wl', 'r', 'ra', 'rl', 'rL', 'rs', 'sk', 'sk', 'sc', 'se', 't', 'g', 'l', 'n', 'it', 'dr']
+                               if i else ['w'])
+                if o == 'w':
+                    p = [rng.choice(units) for _ in range(rng.randint(0, 5))]
+                    op = ['w', ''.join(p) if text else b''.join(p).hex()]
+                elif o == 'wl':
+                    ps = [[rng.choice(units) for _ in range(rng.randint(0, 3))] for _ in range(rng.randint(0, 3))]
+                    op = ['wl', [''.join(q) if text else b''.join(q).hex() for q in ps], rng.choice(WL_FORMS)]
+                elif o == 'r':
+                    op = ['r', rng.randint(0, n + 2)]
+                elif o == 'rL':
+                    op = ['rL', rng.randint(0, 4)]
+                elif o == 'sk':
+                    op = ['sk', rng.randint(0, n if text else n + 3)]
+                elif o == 'sc':
+                    op = ['sc', rng.randint(0, max(0, n - ref.tell()) if text else 3)]
+                elif o == 'se':
+                    op = ['se', rng.randint(0, n)]
+                else:
+                    op = [o]
+                ops.append(op)
+                apply_raw(ref, op, ft)
+            case = {'k': 'F', 'ft': ft, 'ops': ops + [['g'], ['t']]}
+            if self.file_case_ok(case):
+                yield case
+
+    @staticmethod
+    def file_case_ok(case):
+        """inside what the plain-file model claims: seek targets exist for the real objects (never a negative position;
+        for text no position past the end: io.StringIO fills a gap with NUL characters, which the model does not claim)"""
+        ft = case['ft']
+        ref = io.BytesIO() if ft == 'b' else io.StringIO(newline='')
+        for op in case['ops']:
+            n = len(ref.getvalue())
+            if op[0] == 'se' and op[1] > n:
+                return False
+            if ft != 'b' and ((op[0] == 'sk' and op[1] > n) or (op[0] == 'sc' and ref.tell() + op[1] > n)):
+                return False
+            if op[0] in ('w', 'wl') and ref.tell() > n and not written(op, 'B' if ft == 'b' else 'S'):
+                return False    # an EMPTY write past the end: the model fills the gap at once, the real objects only
+                                # when a byte is written (outside the statement: its writes append)
+            apply_raw(ref, op, ft)
+        return True
 
     @staticmethod
     def data_len(case):
@@ -692,16 +791,21 @@ class C18(Property):
             for op in case['ops']:
                 toks.append('s' if op[0] == 's' else 'ra' if op[0] == 'ra' else 'r%d' % op[1])
             return ' '.join(toks)
-        if not reference(case)[0]:
+        if case['k'] == 'F':
+            text = case['ft'] != 'b'
+            toks = ['F', case['ft']]
+        elif not reference(case)[0]:
             return None
-        toks = [case['k'], str(case['ms'])]
+        else:
+            text = case['k'] == 'S'
+            toks = [case['k'], str(case['ms'])]
         if case['k'] == 'S':
             toks.append('R' if case.get('chunk') is None else str(case['chunk']))
         for op in case['ops']:
             if op[0] == 'w':
-                toks.append('w' + (hx(op[1].encode('utf-8')) if case['k'] == 'S' else (op[1] or '-')))
+                toks.append('w' + (hx(op[1].encode('utf-8')) if text else (op[1] or '-')))
             elif op[0] == 'wl':
-                toks.append('W' + ','.join(hx(p.encode('utf-8')) if case['k'] == 'S' else (p or '-') for p in op[1]))
+                toks.append('W' + ','.join(hx(p.encode('utf-8')) if text else (p or '-') for p in op[1]))
             elif op[0] in ARG_OPS:
                 toks.append('%s%d' % (op[0], op[1]))
             else:
@@ -714,6 +818,8 @@ class C18(Property):
         self.stats[case['k']] = self.stats.get(case['k'], 0) + 1
         if case['k'] == 'M':
             return self.impl_mfr(case, iu)
+        if case['k'] == 'F':
+            return self.impl_file(case)
         kind = case['k']
         text = kind == 'S'
         out = []
@@ -748,6 +854,37 @@ class C18(Property):
             except Exception:
                 pass
         return out
+
+    def impl_file(self, case):
+        """the history on every real object the reference file stands for; one trace per object"""
+        ft = case['ft']
+        text = ft != 'b'
+        traces = []
+        for mk in ((io.BytesIO, tempfile.TemporaryFile) if ft == 'b' else
+                   ((lambda: io.StringIO(newline='')),) if ft == 't' else (io.StringIO,)):
+            out = []
+            f = None
+            try:
+                with time_limit(self.case_limit()):
+                    f = mk()
+                    for op in case['ops']:
+                        v = apply_raw(f, op, ft)
+                        if op[0] in ('w', 'wl', 'ro', 'fn'):
+                            v = None
+                        out.append({'r': ['STOP'] if v is StopIteration else canon(v, text), 't': f.tell()})
+                        self.stats['fop:' + op[0]] = self.stats.get('fop:' + op[0], 0) + 1
+            except CaseTimeout:
+                out.append({'exc': 'CaseTimeout'})
+            except Exception as e:
+                out.append({'exc': exc_name(e), 'msg': str(e)[:160]})
+            finally:
+                try:
+                    if f is not None:
+                        f.close()
+                except Exception:
+                    pass
+            traces.append(out)
+        return traces
 
     def case_limit(self):
         """seconds allowed for one history: generous at first, short once the implementation has been seen to
@@ -799,6 +936,8 @@ class C18(Property):
 
     def render(self, case, obs):
         recs = []
+        if case['k'] == 'F':
+            obs = obs[0]
         for o in obs:
             if 'exc' in o:
                 recs.append('X' + o['exc'])
@@ -813,6 +952,8 @@ class C18(Property):
         self._nt = False
         if case['k'] == 'M':
             return self.oracle_mfr(case, obs)
+        if case['k'] == 'F':
+            return self.oracle_file(case, obs)
         in_domain, appending, exp = reference(case)
         if not in_domain or not appending:
             return None        # outside the statement
@@ -860,6 +1001,30 @@ class C18(Property):
         f = Failure(tag, what)
         f.detail = {'i': i, 'op': op, 'got': got, 'want': want}
         return f
+
+    def oracle_file(self, case, obs):
+        """the environment assumption itself: io.BytesIO and tempfile.TemporaryFile are the same abstract file (for the
+        text kinds there is one object; the correspondence with the Lean reference file is the check)"""
+        for tr in obs:
+            for i, o in enumerate(tr):
+                if 'exc' in o:
+                    return Failure('file_raises', 'plain file object raised %s at op %d %r: %s' % (
+                        o['exc'], i, case['ops'][min(i, len(case['ops']) - 1)], o.get('msg')))
+        for tr in obs[1:]:
+            if tr != obs[0]:
+                i = next((j for j in range(min(len(tr), len(obs[0]))) if tr[j] != obs[0][j]), 0)
+                return Failure('file_equiv', 'io.BytesIO and tempfile.TemporaryFile differ at op %d %r: %r vs %r' % (
+                    i, case['ops'][i], obs[0][i], tr[i]))
+        ops = case['ops']
+        moved = False
+        nt = False
+        for op in ops:
+            if op[0] in ('sk', 'sc', 'se'):
+                moved = True
+            if moved and op[0] in ('w', 'wl', 'r', 'ra', 'rl', 'rL', 'rs', 'n', 'it', 'dr'):
+                nt = True
+        self._nt = nt
+        return None
 
     def oracle_mfr(self, case, obs):
         exp = mfr_expected(case)
@@ -930,6 +1095,8 @@ class C18(Property):
             return
 
         def ok(c):
+            if c['k'] == 'F':
+                return self.file_case_ok(c)
             d, a, _ = reference(c)
             return d and (a or c.get('ow'))
         for i in range(len(ops)):
@@ -938,9 +1105,15 @@ class C18(Property):
                 yield c
         for i, op in enumerate(ops):
             if op[0] == 'w':
-                step = 1 if case['k'] == 'S' else 2
+                step = 1 if case['k'] == 'S' or case.get('ft') in ('t', 'd') else 2
                 for j in range(0, len(op[1]), step):
                     c = dict(case, ops=ops[:i] + [['w', op[1][:j] + op[1][j + step:]]] + ops[i + 1:])
+                    if ok(c):
+                        yield c
+            elif op[0] == 'wl' and case['k'] == 'F':
+                cands = [['wl', op[1][:j] + op[1][j + 1:]] + op[2:] for j in range(len(op[1]))]
+                for new in cands:
+                    c = dict(case, ops=ops[:i] + [new] + ops[i + 1:])
                     if ok(c):
                         yield c
             elif op[0] == 'wl':
@@ -952,7 +1125,7 @@ class C18(Property):
                     c = dict(case, ops=ops[:i] + [new] + ops[i + 1:])
                     if ok(c):
                         yield c
-            elif op[0] in ALIAS:
+            elif op[0] in ALIAS and case['k'] != 'F':
                 c = dict(case, ops=ops[:i] + [[ALIAS[op[0]]]] + ops[i + 1:])
                 if ok(c):
                     yield c
